@@ -10,7 +10,7 @@ Each directory holds a change to elastic/rally written by a fresh sub-agent that
 (nothing from /verif): `patch.diff`, the agent's demonstration `demo_test.py` (fails with the change, passes without) and `meta.json`.
 Every change was confirmed by `tools/seed_verify.py`: the demonstration fails on a patched copy of /repo and passes on a clean one, the repository's
 test suite shows no failure outside the baseline's always-fail/flaky set, then the registered quick check of the property ran with `--repo <patched copy>`.
-None of these patches is applied to /repo. `<ID>` = round 1, `<ID>-r2` = round 2, `<ID>-r3` = round 3 (the agent was told what the earlier rounds had tried and asked for a different clause,
+None of these patches is applied to /repo. `<ID>` = round 1, `<ID>-r2` = round 2, `<ID>-r3`, `<ID>-r4` = rounds 3 and 4 (the agent was told what the earlier rounds had tried and asked for a different clause,
 code site and trigger).
 
 | seed | change | needs to manifest | quick tier now | signatures | history |
@@ -31,7 +31,7 @@ def main():
         verdicts = ", ".join(f"{cid}: {c['verdict']}" for cid, c in checks.items())
         sigs = ", ".join(sorted({s.split(" origin=")[0] for c in checks.values() for s in c.get("signatures", [])[:3]}))
         hist = m.get("history", "")
-        if hist.startswith("MISSED"):
+        if hist.startswith("MISSED") or hist.startswith("HARNESS ERROR"):
             missed += 1
         rows.append((name, m.get("summary", "").replace("|", "/")[:260], m.get("needs_to_manifest", "").replace("|", "/")[:220], verdicts, sigs, hist))
     with open(os.path.join(ROOT, "seeded", "README.md"), "w") as f:
